@@ -36,6 +36,7 @@ type Refil struct {
 	// reconcile overlaps the other's parent listing
 	// Fixtures: the initial objects carry no uid and all the same resourceVersion
 	Fixtures   bool               `json:"fixtures,omitempty"`
+	FixtureZero bool              `json:"fixture_zero,omitempty"` // ... and that version is "0"
 	Sibling    bool               `json:"sibling,omitempty"`
 	SibFilters []world.FilterSpec `json:"sib_filters,omitempty"`
 	SlowUs     int                `json:"slow_us,omitempty"`
@@ -126,6 +127,7 @@ func genC07(g GenCtx) interface{} {
 	sc.Stateful = rng.Intn(6) == 0 && !sc.Sibling
 	sc.Touch = rng.Intn(4) == 0
 	sc.Fixtures = rng.Intn(5) == 0
+	sc.FixtureZero = rng.Intn(2) == 0
 	sc.Sim = SimCfg{Strategy: randStrategy(rng, libGoroutines), PermuteMaps: true, MaxSteps: 100000, EstSteps: 1500}
 	sc.Sim.Strategy.StallPermille = 0
 	return sc
@@ -138,6 +140,9 @@ func runC07(sci interface{}) {
 		return
 	}
 	srv := world.NewServer("pod")
+	if sc.Fixtures && sc.FixtureZero {
+		srv.ZeroRV()
+	}
 	for _, o := range sc.Init {
 		if sc.Fixtures {
 			srv.ApplyFixture(o)
